@@ -4,7 +4,7 @@ import ast
 from ..core import AnalysisError, dotted, call_name, src, walk_local
 from ..flow import edge_facts, leaves, linear, Lin
 from ..rules import (flow_of, state_writes, facts_at, calls_in, bind_args, canon, lin, is_lin, cmp_norm, collect_list,
-                     region, in_loop_within, visits_all_stations, is_station_pos, is_evse_at)
+                     region, in_loop_within, visits_all_stations, is_station_pos, is_evse_at, uncopy)
 from ..nullflow import check_queue_timestamp
 
 EXPLANATION = ("Static rules over Simulator._update_schedules, _increase_width and ChargingNetwork.update_pilots: no path from "
@@ -194,7 +194,7 @@ def rule_update_schedules(ck):
     for r in raises:
         if _exc(r) == "KeyError":
             fs = [cmp_norm(a, t) for a, t in facts_at(fl, r)]
-            ok = any(c and c[1] == "not in" and canon(fl.expand(c[2], r)) == "self.network.station_ids"
+            ok = any(c and c[1] == "not in" and canon(uncopy(fl.expand(c[2], r))) == "self.network.station_ids"
                      and canon(fl.expand(c[0], r)) in (f"__elem__({sched})", f"__key__({sched})") for c in fs)
             ok = ok or any(t and _exists_unknown_key(fl.expand(a, r), sched) for a, t in facts_at(fl, r))
             ck.require(ok, "C04.R1", us, r.stmt, ok="every key of the mapping is checked against network.station_ids",
@@ -401,7 +401,7 @@ def rule_none(ck, rid="C04.R5"):
     n = 0
     for q in ("Simulator.__init__", "Simulator.run", "Simulator._update_schedules", "Simulator._store_actual_charging_rates"):
         n += check_queue_timestamp(ck, rid, repo.fn(q))
-    ck.floor(rid, n, 4, "arithmetic uses of get_last_timestamp() in Simulator")
+    ck.floor(rid, n, 1, "arithmetic uses of get_last_timestamp() in Simulator")
 
 
 def rule_broadcast(ck, rid="C04.R6"):
